@@ -738,7 +738,7 @@ pub fn drive_c16(a: &Args) {
         T::Loop(bx(&T::AllChar), 2, None),
         T::Star(bx(&T::Rng(pool.a, pool.c))),
     ];
-    let mut pat = |rng: &mut Rng| -> T {
+    let pat = |rng: &mut Rng| -> T {
         let n = rng.range(1, 6) as usize;
         let v: Vec<T> = (0..n).map(|_| rng.pick(&factors).clone()).collect();
         if v.len() == 1 {
